@@ -485,3 +485,123 @@ func returnsValue(b *ssa.BasicBlock, v ssa.Value) bool {
 	}
 	return false
 }
+
+// ---------- ER-UEOF
+
+// ueofTakenAsSuccess lists, in fns, the comparisons of an error with
+// io.ErrUnexpectedEOF (== / != / errors.Is) whose "it is that error" edge can
+// reach a return that reports success (nil error, or no error result with the
+// data returned). ErrUnexpectedEOF is how every reader says "the input ended
+// in the middle of something": treating it as a normal end accepts truncated
+// or unterminated data.
+func ueofTakenAsSuccess(fns []*ssa.Function) []ssa.Instruction {
+	isUEOF := func(v ssa.Value) bool {
+		ld, ok := stripConv(v).(*ssa.UnOp)
+		if !ok || ld.Op != token.MUL {
+			return false
+		}
+		g, ok := ld.X.(*ssa.Global)
+		return ok && g.Name() == "ErrUnexpectedEOF"
+	}
+	var out []ssa.Instruction
+	for _, fn := range fns {
+		for _, b := range fn.Blocks {
+			for _, in := range b.Instrs {
+				var cond ssa.Value
+				onTrue := true
+				switch x := in.(type) {
+				case *ssa.BinOp:
+					if (x.Op == token.EQL || x.Op == token.NEQ) && (isUEOF(x.X) || isUEOF(x.Y)) {
+						cond, onTrue = x, x.Op == token.EQL
+					}
+				case *ssa.Call:
+					if g := x.Call.StaticCallee(); g != nil && qualName(g) == "errors.Is" && len(x.Call.Args) == 2 && isUEOF(x.Call.Args[1]) {
+						cond = x
+					}
+				}
+				if cond == nil {
+					continue
+				}
+				for _, r := range referrersOf(cond) {
+					iff, ok := r.(*ssa.If)
+					if !ok {
+						continue
+					}
+					start := iff.Block().Succs[0]
+					if !onTrue {
+						start = iff.Block().Succs[1]
+					}
+					for rb := range reachableFrom(start, nil) {
+						ret, ok := rb.Instrs[len(rb.Instrs)-1].(*ssa.Return)
+						if !ok {
+							continue
+						}
+						ev := errOperand(ret)
+						if ev == nil && errorResultIndex(fn.Signature) < 0 && len(ret.Results) > 0 || ev != nil && isNilConst(ev) {
+							out = append(out, in)
+						}
+					}
+				}
+			}
+		}
+	}
+	return out
+}
+
+func ruleERUEOF(c *Ctx) {
+	c.Rule("ER-UEOF", "io.ErrUnexpectedEOF is never taken for a normal end of input: no comparison with it leads to a return that reports success", 0)
+	P := c.P
+	seen := map[ssa.Instruction]bool{}
+	n := 0
+	for _, in := range ueofTakenAsSuccess(P.ModuleFuncs()) {
+		if seen[in] {
+			continue
+		}
+		seen[in] = true
+		n++
+		c.Bad(fmt.Sprintf("%s/unexpected-eof-as-success#%d", fnKey(in.Parent()), n), P.pos(in.Pos()), "an error equal to io.ErrUnexpectedEOF is treated as a normal end and success is reported: input that stops in the middle of a block (or a compressed stream without its final block) is accepted as complete")
+	}
+	if n == 0 {
+		c.OK("module/no-unexpected-eof-as-success", "-", "no comparison with io.ErrUnexpectedEOF leads to a success return")
+	}
+	// fixture: the rule must still see the pattern
+	fx := buildFixture(`package fx
+type E struct{}
+func (E) Error() string { return "" }
+var ErrUnexpectedEOF error = E{}
+var EOF error = E{}
+func read() error { return nil }
+func bad() ([]byte, error) {
+	for {
+		err := read()
+		if err == EOF || err == ErrUnexpectedEOF { break }
+		if err != nil { return nil, err }
+	}
+	return []byte{1}, nil
+}
+func good() ([]byte, error) {
+	err := read()
+	if err == ErrUnexpectedEOF { return nil, E{} }
+	if err == EOF { return []byte{1}, nil }
+	return nil, err
+}
+`)
+	if fx == nil {
+		c.Unk("fixture/ER-UEOF", "-", "fixture package did not build")
+		return
+	}
+	var ffns []*ssa.Function
+	for _, m := range fx.Members {
+		if f, ok := m.(*ssa.Function); ok {
+			ffns = append(ffns, f)
+		}
+	}
+	hits := map[string]bool{}
+	for _, in := range ueofTakenAsSuccess(ffns) {
+		hits[in.Parent().Name()] = true
+	}
+	o := c.ob(Discharged, "fixture/ER-UEOF", "-", fmt.Sprintf("positive fixture: flagged %v (expected exactly bad)", hits), false)
+	if !(len(hits) == 1 && hits["bad"]) {
+		o.Verdict, o.VerdictS = Undecided, "undecided"
+	}
+}
